@@ -182,8 +182,9 @@ def handleNAMES (st : St) (e : Event) : M St := do
   | some _ => (splitOnByte SP e.last).foldlM (namesEntry (fold chan)) st
 
 /-- The permission loop of `handleMODE`. -/
-def modePerms (channelName : Bytes) (st : St) (m : CMode) : St :=
+def modePerms (channelName listArgs : Bytes) (st : St) (m : CMode) : St :=
   if m.setting || m.args.isEmpty then st
+  else if listArgs.contains m.name then st
   else match st.lookupUser m.args with
     | none => st
     | some user =>
@@ -203,7 +204,7 @@ def handleMODE (st : St) (e : Event) : M St := do
     let changes := channel.modes.parse flags (ps.drop 2)
     let channel := { channel with modes := channel.modes.apply changes }
     let st := setChannel st (fold target) channel
-    .ok (changes.foldl (modePerms channel.name) st)
+    .ok (changes.foldl (modePerms channel.name channel.modes.listArgs) st)
 
 def updUser (st : St) (name : Bytes) (f : User → User) : St :=
   match st.lookupUser name with
